@@ -7,7 +7,7 @@ TB = ("Trusted base: the executable reference model and format interpreters unde
       "list/stack/convert/rate model, ref/{osu,sm,bms,qua,ojn}.py), CPython, pandas/numpy/PyYAML as installed. Sampling: a clean "
       "batch is evidence about the explored sessions, not a proof.")
 
-FILE_TECH = "session simulation at the stream seams: generated files and history-made charts through read_file/write_file on a simulated file system (real io/codecs layers over a stub device: tiny buffers, short counts, platform defaults, stale destination, EIO/ENOSPC/close errors placed inside the op, retry after failure), judged by an independent reference interpreter of the format; write/read generation chains"
+FILE_TECH = "session simulation at the stream seams: generated files and history-made charts through read_file/write_file on a simulated file system (real io/codecs layers over a stub device: tiny buffers, short counts, platform defaults, stale destination, EIO/ENOSPC/close errors placed inside the op, EACCES at open, retry after failure), judged by an independent reference interpreter of the format; write/read generation chains"
 CLAIMED = {
  "C09": (FILE_TECH + "; two seams composed",
          "For each of the 16 source->target pairs a generated source file (osu, Quaver, StepMania, BMS, O2Jam; inside the domains of C01/C02/C04/C06/C07; key counts the target supports; on whole milliseconds and on the beat grid when the target has one) is installed, read, converted and written, with independent I/O plans on the read and the write seam (tiny buffers, short counts, platform defaults, stale target, injected errors). The oracle consults only the two reference interpretations - source bytes and target bytes: the target must be valid in its format and its objects, columns (plus the documented column shift) and tempo timeline must equal the source's within the coarser of the two formats' resolutions (1 ms osu/Quaver, 1/96 beat StepMania, 1/192 beat BMS).", "§5 C09"),
@@ -82,7 +82,7 @@ def main():
                    baseline_off_cmd="cd /repo && /venv/bin/python -m pytest -ra -q -p no:cacheprovider --timeout=900 --continue-on-collection-errors",
                    source_commits=[], add_only=True),
         engines=[dict(name="session-simulator", path="/verif/sim", serves_properties=[c["property_id"] for c in checks],
-                      kind_free_text="single-process deterministic session simulator: seeded op/fault generator -> materialised op list -> executor over real reamber + SimFS (real io/codecs stack over a stub raw device) -> reference model + frame invariants -> ddmin -> fresh-interpreter replay")],
+                      kind_free_text="deterministic session simulator (every session in its own process forked from a pristine pre-imported worker): seeded op/fault generator -> materialised op list -> executor over real reamber + SimFS (real io/codecs stack over a stub raw device) -> reference model + frame invariants -> ddmin -> fresh-interpreter replay")],
         checks=checks,
         notes="Exit codes: 0 held / 1 VIOLATION / 2 harness error (never a VIOLATION line). Known findings: /verif/known_findings.json. VERIF_SEED, VERIF_TIER, VERIF_SESSIONS, VERIF_JOBS honoured. VERIF_REPO=<dir> runs the same checks against another checkout (used for seeded mutants).",
         not_applicable=na,
